@@ -9,7 +9,7 @@ PROP = dict(
         "ntp_proto::source::ProtocolVersion::is_expected_incoming_version, ntp_proto::packet::NtpPacket::is_upgrade",
     ],
     bounds=_m._bounds48.replace("one handle_incoming", "one handle_timer / one handle_incoming") + "; reference transition function written from the property text (c12.rs)",
-    outside="NTS sources (version fixed by key exchange: C07); NtpManager's choice of the initial state from the configuration",
+    outside="what UpgradedToV5 / V5 put on the wire and the absence of a fallback while fewer than two polls are missed (needs the NTPv5 request serialiser: handle_timer from a CONCRETE V5 state does not finish symbolic execution, > 6 min / > 4.7 GB; cause: ReferenceIdRequest::new(..).expect() leaves the field length symbolic); NTS sources (version fixed by key exchange: C07); NtpManager's choice of the initial state from the configuration",
     assumptions=[
         "V4UpgradingToV5.tries_left in 1..=8 on the pre-state; the post-state is asserted to stay in 1..=8",
         "matching answer = answers the pending request, fresh, expected version (KISS answers count: the state machine runs before the KISS dispatch)",
@@ -19,7 +19,7 @@ PROP = dict(
     harnesses=[
         H(NS, "c12", "c12_timer", "timer transition == reference; V4 sends plain v4 (48 bytes, no marker), upgrading sends v4 with the marker (v4 family)", timeout=600),
         H(NS, "c12", "c12_incoming", "incoming transition == reference (soundness + completeness), counter stays in 1..=8, unexpected versions ignored entirely (48-byte packets)", timeout=600),
-        H(NS, "c12", "c12_timer_v5", "UpgradedToV5 falls back to V4 iff the last two polls are unanswered, before sending; UpgradedToV5/V5 send v5 with the draft identification", tier="thorough"),
+        H(NS, "c12", "c12_fallback", "UpgradedToV5 with the last two polls unanswered (reach in {0x00,0x04,0x80,0xFC}) returns to V4 before sending a plain NTPv4 request, or is reset when unreachable after start-up", timeout=600),
         H(NS, "c12", "c12_incoming_v5", "incoming transition for NTPv5 answers (UpgradedToV5 -> V5 on a matching answer only)", tier="thorough"),
     ],
 )
